@@ -70,6 +70,9 @@ pub enum Flt {
     PeerCloseErr,
     PeerCloseErrThenReset,
     PeerCloseErrThenDrop,
+    /// the peer's close (with error) is the last thing it writes: the transport is gone at once, the frame can
+    /// still be read but the answering close can no longer be written (EPIPE)
+    PeerCloseErrThenEofAtOnce,
     PeerEnd,
     PeerEndErr,
     PeerDetachS,
@@ -80,11 +83,12 @@ pub enum Flt {
     Eof,
     Reset,
 }
-pub const FAULTS: [Flt; 13] = [
+pub const FAULTS: [Flt; 14] = [
     Flt::PeerClose,
     Flt::PeerCloseErr,
     Flt::PeerCloseErrThenReset,
     Flt::PeerCloseErrThenDrop,
+    Flt::PeerCloseErrThenEofAtOnce,
     Flt::PeerEnd,
     Flt::PeerEndErr,
     Flt::PeerDetachS,
@@ -98,7 +102,7 @@ pub const FAULTS: [Flt; 13] = [
 
 
 fn conn_level(f: Flt) -> bool {
-    matches!(f, Flt::PeerClose | Flt::PeerCloseErr | Flt::PeerCloseErrThenReset | Flt::PeerCloseErrThenDrop | Flt::Eof | Flt::Reset)
+    matches!(f, Flt::PeerClose | Flt::PeerCloseErr | Flt::PeerCloseErrThenReset | Flt::PeerCloseErrThenDrop | Flt::PeerCloseErrThenEofAtOnce | Flt::Eof | Flt::Reset)
 }
 fn sess_level(f: Flt) -> bool {
     matches!(f, Flt::PeerEnd | Flt::PeerEndErr)
@@ -110,7 +114,7 @@ fn r_link(f: Flt) -> bool {
     matches!(f, Flt::PeerDetachRErr | Flt::PeerDetachROpenErr)
 }
 fn carries(f: Flt) -> bool {
-    matches!(f, Flt::PeerCloseErr | Flt::PeerCloseErrThenReset | Flt::PeerCloseErrThenDrop | Flt::PeerEndErr | Flt::PeerDetachSErr | Flt::PeerDetachSOpenErr | Flt::PeerDetachRErr | Flt::PeerDetachROpenErr)
+    matches!(f, Flt::PeerCloseErr | Flt::PeerCloseErrThenReset | Flt::PeerCloseErrThenDrop | Flt::PeerCloseErrThenEofAtOnce | Flt::PeerEndErr | Flt::PeerDetachSErr | Flt::PeerDetachSOpenErr | Flt::PeerDetachRErr | Flt::PeerDetachROpenErr)
 }
 /// does the fault stop the scope the pending operation works on (so that the operation has to complete)?
 /// A pending operation on another scope legitimately stays pending: the scripted peer never answers it.
@@ -265,6 +269,10 @@ pub async fn scenario_b(pd: Pending, flt: Flt) -> BObs {
             c.peer.send(0, Performative::Close(Close { error: Some(cond()) }));
             settle(&mut c.peer, 1).await;
             c.pipe.break_now(FaultMode::Reset);
+        }
+        Flt::PeerCloseErrThenEofAtOnce => {
+            c.peer.send(0, Performative::Close(Close { error: Some(cond()) }));
+            c.pipe.break_now(FaultMode::Eof);
         }
         Flt::PeerCloseErrThenDrop => {
             // the peer goes away right behind its close frame: the frame can still be read and the local
@@ -450,7 +458,7 @@ fn judge_b(pd: Pending, flt: Flt, o: &BObs, panics: &[String]) -> Vec<(String, S
     // ---- the handle of the stopped scope reports the peer's / the transport's error itself (first teardown call on it)
     let conn_first = if pd == Pending::ClosePending { Some(o.pending_result.clone()) } else { o.followups.iter().find(|(n, _)| n == "connection.close").map(|(_, r)| r.clone()) };
     if let Some(r) = conn_first {
-        if matches!(flt, Flt::PeerCloseErr | Flt::PeerCloseErrThenReset | Flt::PeerCloseErrThenDrop) && !r.contains(COND_DBG) {
+        if matches!(flt, Flt::PeerCloseErr | Flt::PeerCloseErrThenReset | Flt::PeerCloseErrThenDrop | Flt::PeerCloseErrThenEofAtOnce) && !r.contains(COND_DBG) {
             f.push((format!("connection-handle-lost-peer-error fault={:?}", flt), format!("{what}: connection.close() reports {r}, the peer closed with resource-limit-exceeded; {}", all())));
         }
         if matches!(flt, Flt::Eof | Flt::Reset) && r == "ok" {
